@@ -264,3 +264,35 @@ def check_cache_wrapper(res: Result, sm: SourceModel) -> int:
     n += 1
     res.ob(all(isinstance(r.value, ast.Subscript) and isinstance(r.value.value, ast.Name) and r.value.value.id == "_KERNEL_CACHE" and isinstance(r.value.slice, ast.Name) and r.value.slice.id == "key" for r in rets) and bool(rets), "cache_kernel|return", Finding("R-GLOBAL.7", "warp_util.cache_kernel|return|not-from-cache", "the wrapper does not return _KERNEL_CACHE[key]", loc))
   return n
+
+
+IMMUTABLE_ANN = {"int", "bool", "float", "str"}
+
+
+def check_memoised_functions(res: Result, sm: SourceModel) -> int:
+  """R-GLOBAL.8: `functools.lru_cache` / `functools.cache` is process-global state keyed by the arguments' hash. It is
+  only history-free when every parameter is an immutable value (int / bool / float / str / enum member): then the key IS
+  the value. A parameter of any other type (MjModel, Model, Data, arrays, un-annotated) is hashed by identity, so an
+  object edited in place and passed again returns the result computed for its earlier contents."""
+  n = 0
+  for fi in sm.all_funcs():
+    decs = [d for d in fi.decorators if d.split("(")[0].split(".")[-1] in ("lru_cache", "cache")]
+    if not decs:
+      continue
+    n += 1
+    bad = []
+    for a in fi.node.args.posonlyargs + fi.node.args.args + fi.node.args.kwonlyargs:
+      ann = ast.unparse(a.annotation) if a.annotation is not None else ""
+      base = ann.split(".")[-1]
+      if base in IMMUTABLE_ANN or base in sm.enums:
+        continue
+      bad.append(f"{a.arg}: {ann or '<no annotation>'}")
+    if fi.node.args.vararg or fi.node.args.kwarg:
+      bad.append("*args/**kwargs")
+    res.ob(
+      not bad,
+      f"{fi.key}|memoised|immutable-params",
+      Finding("R-GLOBAL.8", f"{fi.key}|lru_cache|identity-hashed-parameter", f"{fi.key} is memoised with {decs[0]} but takes {bad}: the cache is keyed by object identity, so results computed for an object's earlier contents are returned after it was edited in place (process-history dependence)", fi.loc()),
+      sample={"function": fi.key, "decorator": decs[0]},
+    )
+  return n
